@@ -113,6 +113,7 @@ Proof.
     rewrite (number_rewrite_digit c0 s' D). apply ends_tail_one. apply (tail_num v c0 s' Hjit W).
   - (* string *) apply ends_tail_one. apply tail_str.
   - (* name *) apply ends_tail_one. apply tail_name. exact W.
+  - (* long string: outside the premise *) destruct W.
   - (* field *) cbn [Fmt0.pexp]. destruct W as (_ & _ & Wn). apply ends_tail_app. apply ends_tail_cons. apply ends_tail_one. apply tail_name. exact Wn.
   - (* index *) cbn [Fmt0.pexp]. apply ends_tail_app. apply ends_tail_cons. apply ends_tail_snoc. reflexivity.
   - (* call *) cbn [Fmt0.pexp]. destruct W as (_ & _ & Wa). apply ends_tail_app. apply tail_pargs. intros S. apply andb_true_iff in S. destruct S as [_ S].
